@@ -33,6 +33,9 @@ var c17Families = []urlFamily{
 	{"file-dash-num-html", func(k int) string { return fmt.Sprintf("http://example.com/news/story-%d.html", k) }},
 	{"file-underscore-num-htm", func(k int) string { return fmt.Sprintf("http://example.com/news/story_%d.htm", k) }},
 	{"https-other-host-pg", func(k int) string { return fmt.Sprintf("https://www.site.org/read?pg=%d", k) }},
+	{"path-middle-num", func(k int) string { return fmt.Sprintf("http://example.com/story/%d/the-long-read", k) }},
+	{"file-article-num-html", func(k int) string { return fmt.Sprintf("http://example.com/news/article-%d.html", k) }},
+	{"path-post-num", func(k int) string { return fmt.Sprintf("http://example.com/post/%d", k) }},
 }
 
 var (
@@ -63,6 +66,14 @@ func hrefForm(u, form string) string {
 
 const c17Body = "<p>alpha beta gamma delta epsilon zeta eta theta iota kappa lambda mu nu xi omicron pi rho sigma tau upsilon phi chi psi omega " +
 	"alpha beta gamma delta epsilon zeta eta theta iota kappa lambda mu nu xi omicron pi rho sigma tau upsilon.</p>\n"
+
+// c17ContainerAttr is the attribute text of the pager's container (set by the prev/next loop).
+var c17ContainerAttr = ` class="pager"`
+
+var c17PrettyContainer = []struct {
+	pretty bool
+	cattr  string
+}{{false, ` class="pager"`}, {true, ` class="pager"`}, {false, ``}, {true, ``}, {false, ` id="nav-links"`}, {true, ` id="nav-links"`}}
 
 func renderPager(fam urlFamily, n, k int, wrapper, current, sep, label, form string, numbered bool, pn *[2]string, pretty bool) string {
 	var items []string
@@ -117,7 +128,7 @@ func renderPager(fam urlFamily, n, k int, wrapper, current, sep, label, form str
 		inner = strings.Join(items, sep)
 	}
 	return "<html><head><title>Some story</title></head><body>\n" + c17Body + c17Body +
-		`<div class="pager">` + label + inner + "</div>\n</body></html>"
+		`<div` + c17ContainerAttr + `>` + label + inner + "</div>\n</body></html>"
 }
 
 func htmlEsc(s string) string { return strings.ReplaceAll(s, "&", "&amp;") }
@@ -219,21 +230,25 @@ func TestC17(t *testing.T) {
 					for li := range c17PNLabels {
 						for _, form := range c17HrefForm {
 							for _, wrapper := range []string{"none", "span", "li"} {
-								for _, pretty := range c17Pretty {
+								for _, pc := range c17PrettyContainer {
+									pretty, cattr := pc.pretty, pc.cattr
 									variant++
-									if !thorough && int(mixIndex(variant)%12) != ((seed%12)+12)%12 {
+									if !thorough && int(mixIndex(variant)%24) != ((seed%24)+24)%24 {
 										continue
 									}
 									pn := c17PNLabels[li]
 									ex := c17Extra{AssertNext: k < n, AssertPrev: k > 1,
-										Cell: fmt.Sprintf("family=%s N=%d k=%d numbered=%v labels=%v href=%s wrapper=%s pretty=%v", fam.name, n, k, numbered, pn, form, wrapper, pretty)}
+										Cell: fmt.Sprintf("family=%s N=%d k=%d numbered=%v labels=%v href=%s wrapper=%s pretty=%v container=%q", fam.name, n, k, numbered, pn, form, wrapper, pretty, cattr)}
 									if k < n {
 										ex.Next = normPagerURL(fam.link(k + 1))
 									}
 									if k > 1 {
 										ex.Prev = normPagerURL(fam.link(k - 1))
 									}
-									c := &Case{Property: "C17", Kind: "prev-next", HTML: renderPager(fam, n, k, wrapper, "strong", " ", "", form, numbered, &pn, pretty),
+									c17ContainerAttr = cattr
+									page := renderPager(fam, n, k, wrapper, "strong", " ", "", form, numbered, &pn, pretty)
+									c17ContainerAttr = ` class="pager"`
+									c := &Case{Property: "C17", Kind: "prev-next", HTML: page,
 										Opts: OptSpec{URL: fam.link(k), Algo: 0}}
 									c.SetExtra(ex)
 									run(c, "prev-next:"+fam.name)
